@@ -104,6 +104,22 @@ func (c *Ctx) prefixFree(tk *TreeKind) prefixFreeInfo {
 		return prefixFreeInfo{ok: true, class: "contract", reason: "user codec contract"}
 	}
 	info := c.m.Info
+	// a numeric codec whose every key type the abstract interpreter follows: each type encodes to
+	// exactly its own width (codecinterp.go establishes length = Sizeof for every value class)
+	if named := namedOf(tk.CodecType); named != nil && named.TypeParams().Len() == 1 && c.numericCodec(named.Origin()) {
+		if ru := c.m.ByName[named.Obj().Name()+".Restore"]; ru != nil {
+			all := true
+			set := typeSetOf(named.Origin().TypeParams().At(0))
+			for _, t := range set {
+				if v := c.interpretCodecArm(tu, ru, t); !v.decided || !v.ok {
+					all = false
+				}
+			}
+			if all && len(set) > 0 {
+				return prefixFreeInfo{ok: true, class: "fixed-width", reason: fmt.Sprintf("%s encodes each of its %d key types to exactly unsafe.Sizeof bytes (abstract interpretation of the codec)", tu.Name, len(set))}
+			}
+		}
+	}
 	// which variable/expression is returned as result #1
 	var rets []*ast.ReturnStmt
 	ast.Inspect(tu.Body, func(n ast.Node) bool {
